@@ -150,3 +150,27 @@ func VerifResolveExprs(allOps, pkgOps []VerifScopeOp, mode int, text string) (al
 	})
 	return
 }
+
+// VerifScopeDefineAll builds the scope `other` by otherOps and the target scope by ops,
+// calls target.DefineAll(&other) and observes the given names in the target.
+// The lines of otherOps are numbered first, then those of ops.
+func VerifScopeDefineAll(otherOps, ops []VerifScopeOp, names []string) (infos []VerifLineInfo, obs []VerifScopeObs, panicked string) {
+	panicked = VerifPanic(func() {
+		all := append(append([]VerifScopeOp(nil), otherOps...), ops...)
+		var mklines []*MkLine
+		mklines, infos = verifScopeLines("defineall.mk", all)
+		other := NewScope()
+		for i, op := range otherOps {
+			verifScopeApply(&other, op, mklines[i])
+		}
+		target := NewScope()
+		for i, op := range ops {
+			verifScopeApply(&target, op, mklines[len(otherOps)+i])
+		}
+		target.DefineAll(&other)
+		for _, name := range names {
+			obs = append(obs, verifScopeObserve(&target, name))
+		}
+	})
+	return
+}
